@@ -459,3 +459,83 @@ class InnerShadow:
 
     def report(self):
         return {"inner_shadow": {k: v for k, v in self.stats.items() if k != "cells"}, "inner_shadow_cells": dict(self.stats["cells"])}
+
+
+# --------------------------------------------------------------------------
+# prelude cases (inserted by the runner into every workload): legitimate API use of the objects
+# the library hands out through its factory functions (zero / unit vectors, origin, axes, planes),
+# followed by a sentinel check that those factories still deliver what their names say.
+# Process-global state polluted here also shows in every later case of the same worker.
+
+def judge_prelude(case, verdict=True):
+    G = load()
+    mu = core.Multi()
+    mu.cell("prelude")
+    V = G.Vector
+    try:
+        l = G.Line(V.zero(), G.x_unit_vector())
+        l.move(V(0, 2, 1))
+        l2 = G.Line(G.z_unit_vector(), V.x_unit_vector())
+        l2.move(V(0, 0, 1))
+        v = G.y_unit_vector()
+        v[1] = 5.0
+        w = V.zero()
+        w[0] = 1
+        o = G.origin()
+        o.move(V(1, 2, 3))
+        ax = G.x_axis()
+        ax.move(V(0, 1, 0))
+        pl = G.xy_plane()
+        pl.move(V(0, 0, 2))
+        p0 = G.Point(1, 2, 3)
+        q0 = G.Point(2, 3, 5)
+        ln = G.Line(p0, q0)
+        ln.move(V(1, 0, 0))
+        u = V(3, 4, 0)
+        u.normalized(), u.length(), u.unit()
+        u[2] = 12
+        hs = G.HalfLine(G.origin(), G.z_unit_vector())
+        hs.move(V(1, 1, 1))
+    except Exception as e:
+        mu.fail("prelude:raises-" + type(e).__name__, "ordinary use of the library's factory objects raised %r" % e)
+        return mu.result() if verdict else core.ok(["prelude"])
+    bad = []
+
+    def comps(x):
+        return [x[0], x[1], x[2]]
+    for name, want in (("zero", [0, 0, 0]), ("x_unit_vector", [1, 0, 0]), ("y_unit_vector", [0, 1, 0]), ("z_unit_vector", [0, 0, 1])):
+        if comps(getattr(V, name)()) != want:
+            bad.append("Vector.%s() = %r" % (name, comps(getattr(V, name)())))
+        if name != "zero" and comps(getattr(G, name)()) != want:
+            bad.append("%s() = %r" % (name, comps(getattr(G, name)())))
+    oo = G.origin()
+    if (oo.x, oo.y, oo.z) != (0, 0, 0):
+        bad.append("origin() = %r" % oo)
+    for name, dv in (("x_axis", (1, 0, 0)), ("y_axis", (0, 1, 0)), ("z_axis", (0, 0, 1))):
+        a_ = getattr(G, name)()
+        if comps(a_.sv) != [0, 0, 0] or tuple(comps(a_.dv)) != dv:
+            bad.append("%s() = %r" % (name, a_))
+    for name, n in (("xy_plane", (0, 0, 1)), ("yz_plane", (1, 0, 0)), ("xz_plane", (0, 1, 0))):
+        p_ = getattr(G, name)()
+        if (p_.p.x, p_.p.y, p_.p.z) != (0, 0, 0) or tuple(comps(p_.n)) != n:
+            bad.append("%s() = %r" % (name, p_))
+    if (p0.x, p0.y, p0.z) != (1, 2, 3) or comps(p0.pv()) != [1, 2, 3]:
+        bad.append("a Point changed after a Line built from it was moved: %r / pv %r" % (p0, comps(p0.pv())))
+    try:
+        fresh = G.Line(p0, q0)
+        if not (p0 in fresh) or not (q0 in fresh):
+            bad.append("Line(p, q) does not contain p / q after an earlier Line built from p was moved")
+    except Exception as e:
+        bad.append("Line(p, q) raised %r" % e)
+    nz = u.normalized()
+    if abs(float(nz[2]) - 12.0 / 13.0) > 1e-12:
+        bad.append("normalized() after coordinate assignment = %r" % comps(nz))
+    try:
+        G.Line(G.Point(1, 1, 1), G.Point(1, 1, 1))
+        bad.append("Line(P, P) accepted")
+    except Exception:
+        pass
+    if bad and verdict:
+        mu.fail("global-state:" + bad[0].split("(")[0].split("=")[0].strip().replace(" ", "-")[:40],
+                "after ordinary use (moving / editing objects obtained from the library's factory functions): " + "; ".join(bad[:3]))
+    return mu.result()
